@@ -71,5 +71,12 @@ Proof.
 Qed.
 Print Assumptions C18_awake_demes_are_scheduled.
 
+(* ... and a scheduled deme's first event is an engine iteration (a generation, or one complete local search): a metaepoch that
+   schedules somebody contains an engine iteration *)
+Theorem C18_scheduled_deme_iterates c s e s' t d g : step c s e = Some s' -> (pc s = PDeme t d g SGen \/ pc s = PDeme t d g SLocal) ->
+  (exists n, e = EGen n) \/ (exists n, e = ELocal n).
+Proof. exact (scheduled_deme_iterates c s e s' t d g). Qed.
+Print Assumptions C18_scheduled_deme_iterates.
+
 Example C18_example : exists s, ex_final = Some s /\ map d_hib (demes s) = [true; false; false] /\ last_round s = ([0], []).
 Proof. vm_compute. eexists. split; [reflexivity|]. split; reflexivity. Qed.
